@@ -63,6 +63,15 @@ def run(ctx):
     for n, s in enumerate(scripts):
         jobs.append(("script", dict(cfg=dict(s["cfg"]), tdts=s["tdts"], simdts=s["simdts"], flog=s["flog"],
                                     probes=[0, 2, 3][n % 3], screening=bool((n // 3) % 2), progress=10 ** 9)))
+    # history: a faulted run followed, in the same process and at the same output path (its files removed with
+    # os.remove), by a second run with its own fault: nothing of the first may leak into the second
+    hist = [s for s in s1 if s["cfg"]["out"] == "path" and s["cfg"]["skipT"] == 0][: (12 if ctx.quick else 200)]
+    for n, s in enumerate(hist):
+        N = max(1, len(s["simdts"]))
+        prior = dict(k=s["cfg"]["k"], solveT=N, simdts=[1] * N,
+                     flog=[dict(kind=["KI", "Err"][n % 2], where="update", stage="sim", i=(N - 1), at=["pre", "post"][(n // 2) % 2])])
+        jobs.append(("script", dict(cfg=dict(s["cfg"]), tdts=s["tdts"], simdts=s["simdts"], flog=s["flog"],
+                                    probes=[0, 2, 3][n % 3], screening=bool(n % 2), progress=10 ** 9, prior=prior)))
     from harness import runnat
     jobs += [("natural", p) for p in natural_matrix(ctx)]
     traces = rf.replay_all(ctx, jobs)
